@@ -54,6 +54,43 @@ def inline_swaps(f):
     return found
 
 
+from ..engines.induct import Poly, Facts
+
+
+def ev_len(cx_, node, sym, parity):
+    """value of an unsigned expression over `sym` = 2k + parity, as Poly in k; None if not understood"""
+    n_ = cx_.resolve(node) if cx_ is not None else strip(node, casts=True)
+    n_ = strip(n_, casts=True)
+    k_ = n_["kind"]
+    if k_ == "IntegerLiteral":
+        return Poly.const(int(n_["value"]))
+    if k_ in ("DeclRefExpr", "MemberExpr"):
+        if sym(n_):
+            return Poly.sym("k").scale(2) + Poly.const(parity)
+        return None
+    if k_ == "BinaryOperator":
+        a_, b_ = ev_len(cx_, kids(n_)[0], sym, parity), ev_len(cx_, kids(n_)[1], sym, parity)
+        if a_ is None or b_ is None:
+            return None
+        op = n_["opcode"]
+        if op == "+":
+            return a_ + b_
+        if op == "-":
+            return a_ - b_
+        if op == "/" and b_.is_const() and b_.get((), 0) == 2:
+            # floor((2k + p + 2c)/2): coefficients of k even, constant floored
+            if all(v_.denominator == 1 and int(v_) % 2 == 0 for kk, v_ in a_.items() if kk != ()):
+                c0 = a_.get((), 0)
+                out = Poly()
+                for kk, v_ in a_.items():
+                    if kk != ():
+                        out[kk] = v_ / 2
+                return out + Poly.const(int(c0) // 2)
+            return None
+    return None
+
+
+
 def is_assert_stmt_anc(f, node):
     """node lies inside an assertion statement of f"""
     return any(is_assert_stmt(a) for a in inv.enclosing_chain(f, node))
@@ -433,8 +470,8 @@ def rules(rep, m):
         r3.ok()
 
     # R-C18-4 ------------------------------------------------------------
-    r4 = rep.rule("R-C18-4", "copies are exact: each array is allocated with the source's capacity and copied with the same "
-                  "element count; count, capacity, minimum and maximum are carried over", floor=3)
+    r4 = rep.rule("R-C18-4", "copies are exact: each array is allocated with the capacity that is carried over and copied "
+                  "with all samples in use (count or the whole capacity); count, capacity, minimum and maximum are carried over", floor=3)
     for fname in ("cmb_dataset_copy", "cmb_timeseries_copy"):
         f = m.need(fname)
         cx = FuncCtx(m, f)
@@ -452,9 +489,22 @@ def rules(rep, m):
             short = arr.split("->")[-1]
             cp = [v for k_, v in copies.items() if k_.endswith("->" + short)]
             r4.instance("%s: %s allocated with %s, copied %s" % (fname, arr, cnt, cp))
-            good = len(cp) == 1 and cp[0][0].endswith("->" + short) and re.fullmatch(r"\(%s \* sizeof\(.+\)\)" % re.escape(cnt), cp[0][1])
+            # allocated with the capacity that is carried over (cursize), copied with at least the samples in use
+            # (count) and at most what was allocated
+            good = len(cp) == 1 and cp[0][0].endswith("->" + short)
+            why = "copies %s" % cp
+            if good:
+                mm = re.fullmatch(r"\((.+) \* sizeof\(.+\)\)", cp[0][1])
+                copied = mm.group(1) if mm else None
+                cap_ok = re.fullmatch(r"\S+->cursize", cnt) is not None
+                cnt_ok = copied is not None and (copied == cnt or re.fullmatch(r"\S+->(count|cursize)", copied) is not None)
+                good = cap_ok and cnt_ok
+                if not cap_ok:
+                    why = "allocates %s elements although the capacity carried over is cursize" % cnt
+                elif not cnt_ok:
+                    why = "copies %s elements: fewer than the count samples in use, or not a count at all" % copied
             if not good:
-                rep.finding(r4, fname, "copy:" + short, "%s allocates %s with %s elements but copies %s" % (fname, arr, cnt, cp),
+                rep.finding(r4, fname, "copy:" + short, "%s allocates %s with %s elements: %s" % (fname, arr, cnt, why),
                             where=m.rel(f.where))
                 r4.fail()
             else:
@@ -516,18 +566,33 @@ def rules(rep, m):
         binc = re.sub(r"[\s()]", "", render(bk[3]))
         vname = bv[0]["name"] if bv else "?"
         signed = bv and "int64_t" in (bv[0].get("type") or "") and "uint" not in (bv[0].get("type") or "")
-        start_ok = binit in ("%s/2-1" % sz, "%s/2" % sz, "%s-1" % sz)
+        # the first node sifted must be at least the last internal node n/2 - 1 and a valid index, for both parities
+        is_cnt = lambda n_: n_["kind"] == "MemberExpr" and n_.get("name") == "count"
+        start_ok, start_known, start_desc = True, True, []
+        for parity in (0, 1):
+            sp = ev_len(cx, kids(bv[0])[0], is_cnt, parity) if bv and kids(bv[0]) else None
+            if sp is None:
+                start_known = False
+                break
+            kf = Facts().add_le0(Poly.sym("k").scale(-1), "k >= 0")
+            kf = kf.add_le0(Poly.const(1) - (Poly.sym("k").scale(2) + Poly.const(parity)), "n >= 1")
+            last_internal = Poly.sym("k") - Poly.const(1)          # floor(n/2) - 1 for n = 2k and n = 2k + 1
+            okp = kf.proves_le0(last_internal - sp) and kf.proves_le0(sp - (Poly.sym("k").scale(2) + Poly.const(parity) - Poly.const(1)))
+            start_desc.append("%s n: starts at %s, last internal node %s" % ("even" if parity == 0 else "odd", sp.show(), last_internal.show()))
+            start_ok = start_ok and okp
+        if not start_known:
+            start_ok = binit in ("%s/2-1" % sz, "%s/2" % sz, "%s-1" % sz)
         cond_ok = bcond == "%s>=0" % vname and signed
         inc_ok = binc in (vname + "--", "--" + vname)
         root_ok = cx.canon(kids(bc)[-1]) in (vname, "(uint64_t)%s" % vname) or render(strip(kids(bc)[-1], casts=True)) == vname
         rep.sample({"rule": "R-C18-6", "function": n, "build": [binit, bcond, binc], "size": size_b})
         if not (start_ok and cond_ok and inc_ok and root_ok):
-            known_bad = (binit is not None and re.fullmatch(r"%s/\d+-\d+|%s/\d+" % (re.escape(sz), re.escape(sz)), binit) is not None and not start_ok) \
+            known_bad = (start_known and not start_ok) or (binit is not None and re.fullmatch(r"%s/\d+-\d+|%s/\d+" % (re.escape(sz), re.escape(sz)), binit) is not None and not start_ok) \
                 or bcond in ("%s>0" % vname, "%s>=1" % vname) or not root_ok
             if not known_bad and not (start_ok and inc_ok):
                 raise AnalysisBroken("%s: build loop '%s; %s; %s' not understood" % (n, binit, bcond, binc))
             rep.finding(r6, n, "build:range", "%s builds the heap with '%s = %s; %s; %s' sifting at '%s': every internal node "
-                        "from n/2 - 1 down to and including 0 has to be sifted" % (n, vname, binit, bcond, binc, render(kids(bc)[-1])),
+                        "from n/2 - 1 down to and including 0 has to be sifted (%s)" % (n, vname, binit, bcond, binc, render(kids(bc)[-1]), "; ".join(start_desc)),
                         where=m.rel(loc(build)))
             r6.fail()
         else:
@@ -719,41 +784,8 @@ def rules(rep, m):
     r9 = rep.rule("R-C18-9", "the array-median helper indexes inside [0, n-1] for every n >= 1 of either parity, and every call "
                   "passes a length that is provably >= 1 (lengths derived from the sample count by halving are evaluated per "
                   "parity; obligations decided by Fourier-Motzkin elimination)", floor=5)
-    from ..engines.induct import Poly, Facts
     dm = m.need("data_array_median")
     nn, vv = dm.params[0]["name"], dm.params[1]["name"]
-
-    def ev_len(cx_, node, sym, parity):
-        """value of an unsigned expression over `sym` = 2k + parity, as Poly in k; None if not understood"""
-        n_ = cx_.resolve(node) if cx_ is not None else strip(node, casts=True)
-        n_ = strip(n_, casts=True)
-        k_ = n_["kind"]
-        if k_ == "IntegerLiteral":
-            return Poly.const(int(n_["value"]))
-        if k_ in ("DeclRefExpr", "MemberExpr"):
-            if sym(n_):
-                return Poly.sym("k").scale(2) + Poly.const(parity)
-            return None
-        if k_ == "BinaryOperator":
-            a_, b_ = ev_len(cx_, kids(n_)[0], sym, parity), ev_len(cx_, kids(n_)[1], sym, parity)
-            if a_ is None or b_ is None:
-                return None
-            op = n_["opcode"]
-            if op == "+":
-                return a_ + b_
-            if op == "-":
-                return a_ - b_
-            if op == "/" and b_.is_const() and b_.get((), 0) == 2:
-                # floor((2k + p + 2c)/2): coefficients of k even, constant floored
-                if all(v_.denominator == 1 and int(v_) % 2 == 0 for kk, v_ in a_.items() if kk != ()):
-                    c0 = a_.get((), 0)
-                    out = Poly()
-                    for kk, v_ in a_.items():
-                        if kk != ():
-                            out[kk] = v_ / 2
-                    return out + Poly.const(int(c0) // 2)
-                return None
-        return None
 
     # inside the helper
     for parity in (0, 1):
